@@ -857,3 +857,646 @@ Proof.
     + cbn [del_box buffered]. change (adel beqb c (boxes s)) with (boxes (del_box s c)).
       rewrite total_del_box by exact H1. rewrite Eb. unfold plen. rewrite Epl. cbn [length]. lia.
 Qed.
+
+(* ---- the sender list of the attached receive ------------------------------------------------- *)
+
+Definition wf (s : state) (c : cid) : option (list N) := option_map w_froms (mb_waiter (view s c)).
+
+Definition wf_step (c : cid) (cur : option (list N)) (eo : event * output) : option (list N) :=
+  match eo with
+  | (RecvEnter c' froms, OEntered) => if beqb c' c then Some (dedup froms) else cur
+  | (RecvExit c', ONone) => if beqb c' c then None else cur
+  | _ => cur
+  end.
+
+Lemma step_wf s e c : wf (fst (step s e)) c = wf_step c (wf s c) (e, snd (step s e)).
+Proof.
+  unfold wf. destruct e; step_unfold; cbn [wf_step].
+  - destruct (reader s); cbn [fst snd]; try reflexivity.
+    destruct (negb (mem from (quorum s))); cbn [fst snd]; [reflexivity|].
+    fold (view s c0).
+    destruct (nlookup from (mb_payloads (view s c0))) eqn:Ex.
+    + destruct (beqb b p) eqn:Eb; cbn [fst snd]; [reflexivity|].
+      views. destruct (beqb c c0) eqn:Ec; [|reflexivity]. beq_subst. cbn [signal mb_waiter].
+      destruct (mb_waiter (view s c0)); cbn [option_map]; [rewrite signal_waiter_froms|]; reflexivity.
+    + destruct (buffer_full (buffered s)); cbn [fst snd].
+      * views. destruct (beqb c c0) eqn:Ec; [|reflexivity]. beq_subst. reflexivity.
+      * views. destruct (beqb c c0) eqn:Ec; [|reflexivity]. beq_subst. cbn [signal mb_waiter].
+        destruct (mb_waiter (view s c0)); cbn [option_map]; [rewrite signal_waiter_froms|]; reflexivity.
+  - destruct (reader s); cbn [fst snd]; try reflexivity.
+    destruct (negb (mem from (quorum s))); cbn [fst snd]; reflexivity.
+  - destruct (reader s); cbn [fst snd]; reflexivity.
+  - destruct (fatal s); cbn [fst snd]; [reflexivity|].
+    set (s1 := match reader s with RNotStarted => set_reader s RRunning | _ => s end).
+    assert (Hv : forall c', view s1 c' = view s c') by (intros c'; unfold s1; destruct (reader s); reflexivity).
+    fold (view s1 c0). destruct (mb_waiter (view s1 c0)) eqn:Ew; cbn [fst snd]; views; rewrite ?(beqb_sym c0 c);
+      (destruct (beqb c c0) eqn:Ec; [beq_subst|]); rewrite ?Hv; try reflexivity.
+  - destruct (find_box s c0) eqn:Eb; cbn [fst snd]; [|reflexivity]. find_to_view.
+    destruct (mb_waiter m) eqn:Ew; cbn [fst snd]; [|reflexivity].
+    destruct (w_phase w); cbn [fst snd]; try reflexivity.
+    destruct (mb_poison m) eqn:Ep; cbn [fst snd].
+    { views. destruct (beqb c c0) eqn:Ec; [beq_subst; rewrite Ew|]; reflexivity. }
+    destruct (collect (w_froms w) (mb_payloads m)) eqn:Ecol; cbn [fst snd].
+    { views. destruct (beqb c c0) eqn:Ec; [beq_subst; rewrite Ew|]; reflexivity. }
+    destruct (fatal s); cbn [fst snd].
+    { views. destruct (beqb c c0) eqn:Ec; [beq_subst; rewrite Ew|]; reflexivity. }
+    destruct (w_cancel w); cbn [fst snd]; views; (destruct (beqb c c0) eqn:Ec; [beq_subst; rewrite Ew|]); reflexivity.
+  - destruct (find_box s c0) eqn:Eb; cbn [fst snd]; [|reflexivity]. find_to_view.
+    destruct (mb_waiter m) eqn:Ew; cbn [fst snd]; [|reflexivity].
+    destruct (w_phase w); cbn [fst snd]; try reflexivity.
+    destruct (0 <? w_tokens w)%N; cbn [fst snd]; [|reflexivity].
+    views. destruct (beqb c c0) eqn:Ec; [beq_subst; rewrite Ew|]; reflexivity.
+  - destruct (find_box s c0) eqn:Eb; cbn [fst snd]; [|reflexivity]. find_to_view.
+    destruct (mb_waiter m) eqn:Ew; cbn [fst snd]; [|reflexivity].
+    destruct (w_phase w); cbn [fst snd]; try reflexivity.
+    destruct (w_cancel w || is_some (fatal s)); cbn [fst snd]; [|reflexivity].
+    views. destruct (beqb c c0) eqn:Ec; [beq_subst; rewrite Ew|]; reflexivity.
+  - destruct (find_box s c0) eqn:Eb; cbn [fst snd]; [|reflexivity]. find_to_view.
+    destruct (mb_waiter m) eqn:Ew; cbn [fst snd]; [|reflexivity].
+    views. destruct (beqb c c0) eqn:Ec; [beq_subst; rewrite Ew|]; reflexivity.
+  - reflexivity.
+  - destruct (find_box s c0) eqn:Eb; cbn [fst snd]; [|reflexivity]. find_to_view.
+    destruct (mb_waiter m) eqn:Ew; cbn [fst snd]; [|reflexivity].
+    destruct (w_phase w); cbn [fst snd]; try reflexivity.
+    destruct (mb_payloads m) eqn:Epl; [destruct (mb_poison m) eqn:Epo|]; cbn [fst snd]; views; rewrite ?(beqb_sym c0 c);
+      (destruct (beqb c c0) eqn:Ec; [beq_subst|]); reflexivity.
+Qed.
+
+(* ---- invariants of every reachable state ---------------------------------------------------------- *)
+
+(* about the regenerated constants *)
+Lemma notify_capacity_pos : (1 <= notifyCapacity)%N.
+Proof. unfold notifyCapacity. lia. Qed.
+
+Lemma buffer_full_bound b : buffer_full b = true -> (maxReceiveBufferSize <= b)%Z.
+Proof. unfold buffer_full. lia. Qed.
+
+Lemma reach_quorum q tr s : reach q tr s -> quorum s = q.
+Proof. induction 1; [reflexivity|]. rewrite quorum_step. assumption. Qed.
+
+Lemma reach_winv q tr s : reach q tr s -> WInv s.
+Proof. induction 1; [apply winv_init|]. apply winv_step; [exact notify_capacity_pos|assumption]. Qed.
+
+Lemma reach_sinv q tr s : reach q tr s -> SInv s.
+Proof. induction 1 as [|tr s e H IH]; [apply sinv_init|]. apply sinv_step; [eapply reach_winv; exact H|exact IH]. Qed.
+
+Lemma reach_pl q tr s : reach q tr s -> forall c f, pl s c f = pending_r tr c f.
+Proof.
+  induction 1 as [|tr s e H IH]; intros c f; [reflexivity|].
+  rewrite step_pl. cbn [pending_r]. rewrite IH. reflexivity.
+Qed.
+
+Lemma reach_poison q tr s : reach q tr s -> forall c, poi s c = blame_r tr c.
+Proof.
+  induction 1 as [|tr s e H IH]; intros c; [reflexivity|].
+  rewrite step_poison. cbn [blame_r]. rewrite IH.
+  unfold blame_step. destruct e; try reflexivity. destruct (snd (step s (Deposit from c0 p))); try reflexivity.
+  rewrite (reach_pl q tr s H). reflexivity.
+Qed.
+
+Lemma reach_wf q tr s : reach q tr s -> forall c, wf s c = option_map dedup (entered_r tr c).
+Proof.
+  induction 1 as [|tr s e H IH]; intros c; [reflexivity|].
+  rewrite step_wf. cbn [entered_r]. rewrite IH. unfold wf_step, enter_step.
+  destruct e; try reflexivity; destruct (snd (step s _)); try reflexivity; destruct (beqb c0 c); reflexivity.
+Qed.
+
+(* a filed deposit comes from a member *)
+Lemma deposit_filed_member s f c p d :
+  snd (step s (Deposit f c p)) = ODep d -> filed d = true -> mem f (quorum s) = true.
+Proof.
+  cbn [step]. unfold deposit. destruct (reader s); cbn [snd]; try (intros H; injection H as <-; discriminate).
+  destruct (mem f (quorum s)); cbn [negb snd]; [reflexivity|]. intros H; injection H as <-; discriminate.
+Qed.
+
+Lemma filed_member q tr s : reach q tr s ->
+  forall f c p d, In (Deposit f c p, ODep d) tr -> filed d = true -> mem f q = true.
+Proof.
+  induction 1 as [|tr s e H IH]; intros f c p d Hin Hf; [destruct Hin|].
+  destruct Hin as [Heq|Hin]; [|eapply IH; eauto].
+  injection Heq as -> Ho. rewrite <- (reach_quorum q tr s H). eapply deposit_filed_member; eauto.
+Qed.
+
+(* ---- what the specification functions say, declaratively ------------------------------------------ *)
+
+Definition consumes (c : cid) (f : N) (eo : event * output) : Prop :=
+  exists res, eo = (RecvCheck c, ORecvOk res) /\ In f (map fst res).
+
+(* pending = payload of a filed deposit of exactly (f, c) made when nothing of (f, c) was
+   pending (the first one since the last consumption), not consumed since *)
+Lemma pending_r_spec tr c f p :
+  pending_r tr c f = Some p <->
+  exists newer older d, tr = newer ++ (Deposit f c p, ODep d) :: older /\ filed d = true /\
+    pending_r older c f = None /\ (forall eo, In eo newer -> ~ consumes c f eo).
+Proof.
+  split.
+  - revert p. induction tr as [|eo tr IH]; intros p; cbn [pending_r]; [discriminate|].
+    assert (Hkeep : pending_r tr c f = Some p -> ~ consumes c f eo ->
+      exists newer older d, eo :: tr = newer ++ (Deposit f c p, ODep d) :: older /\ filed d = true /\
+        pending_r older c f = None /\ (forall eo', In eo' newer -> ~ consumes c f eo')).
+    { intros Hp Hnc. destruct (IH p Hp) as (nw & ol & d & -> & Hd & Hn & Hc).
+      exists (eo :: nw), ol, d. split; [reflexivity|]. split; [exact Hd|]. split; [exact Hn|].
+      intros eo' [<-|Hin]; [exact Hnc|apply Hc; exact Hin]. }
+    destruct eo as [e o]. unfold pend_step.
+    destruct e; try (intros Hp; apply Hkeep; [exact Hp|intros (r0 & Heq & _); discriminate]).
+    + destruct o; try (intros Hp; apply Hkeep; [exact Hp|intros (r0 & Heq & _); discriminate]).
+      destruct (filed d && N.eqb from f && beqb c0 c) eqn:Ecd.
+      * apply andb_true_iff in Ecd as [Ecd Ec]. apply andb_true_iff in Ecd as [Ed Ef]. beq_subst.
+        destruct (pending_r tr c f) eqn:Ep.
+        -- intros Hp. injection Hp as ->. apply Hkeep; [reflexivity|intros (r0 & Heq & _); discriminate].
+        -- intros Hp. injection Hp as ->. exists [], tr, d. repeat split; auto.
+      * intros Hp; apply Hkeep; [exact Hp|intros (r0 & Heq & _); discriminate].
+    + destruct o; try (intros Hp; apply Hkeep; [exact Hp|intros (res' & Heq & _); discriminate]).
+      destruct (beqb c0 c && mem f (map fst res)) eqn:Ecd; [discriminate|].
+      intros Hp. apply Hkeep; [exact Hp|]. intros (res' & Heq & Hin). injection Heq as -> ->.
+      rewrite beqb_refl in Ecd. cbn [andb] in Ecd. apply mem_false in Ecd. contradiction.
+  - intros (nw & ol & d & -> & Hd & Hn & Hc). induction nw as [|eo nw IH]; cbn [app pending_r].
+    + unfold pend_step. rewrite Hd, N.eqb_refl, beqb_refl, Hn. reflexivity.
+    + rewrite IH by (intros eo' Hin; apply Hc; right; exact Hin).
+      destruct eo as [e o]. unfold pend_step. destruct e; try reflexivity; destruct o; try reflexivity.
+      * destruct (filed d0 && N.eqb from f && beqb c0 c); reflexivity.
+      * destruct (beqb c0 c && mem f (map fst res)) eqn:Ecd; [|reflexivity].
+        exfalso. apply andb_true_iff in Ecd as [Ec Em]. beq_subst. apply mem_In in Em.
+        apply (Hc (RecvCheck c, ORecvOk res)); [left; reflexivity|]. exists res. split; [reflexivity|exact Em].
+Qed.
+
+Lemma pending_sound tr c f p :
+  pending_r tr c f = Some p -> exists d, In (Deposit f c p, ODep d) tr /\ filed d = true.
+Proof.
+  intros H. apply pending_r_spec in H as (nw & ol & d & -> & Hd & _). exists d. split; [|exact Hd].
+  apply in_or_app. right. left. reflexivity.
+Qed.
+
+(* blame = the sender of the latest filed deposit that differed from what was pending *)
+Lemma blame_r_spec tr c g :
+  blame_r tr c = Some g ->
+  exists newer older p p' d, tr = newer ++ (Deposit g c p', ODep d) :: older /\ filed d = true /\
+    pending_r older c g = Some p /\ p <> p'.
+Proof.
+  induction tr as [|eo tr IH]; cbn [blame_r]; [discriminate|].
+  assert (Hkeep : blame_r tr c = Some g ->
+    exists newer older p p' d, eo :: tr = newer ++ (Deposit g c p', ODep d) :: older /\ filed d = true /\
+      pending_r older c g = Some p /\ p <> p').
+  { intros Hb. destruct (IH Hb) as (nw & ol & p & p' & d & -> & H1 & H2 & H3).
+    exists (eo :: nw), ol, p, p', d. repeat split; auto. }
+  destruct eo as [e o]. unfold blame_step. destruct e; try exact Hkeep. destruct o; try exact Hkeep.
+  destruct (filed d && beqb c0 c) eqn:Ecd; [|exact Hkeep].
+  apply andb_true_iff in Ecd as [Ed Ec]. beq_subst.
+  destruct (pending_r tr c from) eqn:Ep; [|exact Hkeep].
+  destruct (beqb b p) eqn:Eb; [exact Hkeep|].
+  intros H. injection H as ->. exists [], tr, b, p, d. repeat split; auto. apply beqb_neq. exact Eb.
+Qed.
+
+Lemma blame_r_persist tr c eo : blame_r tr c <> None -> blame_r (eo :: tr) c <> None.
+Proof.
+  cbn [blame_r]. destruct eo as [e o]. unfold blame_step. destruct e; auto. destruct o; auto.
+  destruct (filed d && beqb c0 c); auto. destruct (pending_r tr c from); auto. destruct (beqb b p); auto. discriminate.
+Qed.
+
+(* ---- the property lemmas ------------------------------------------------------------------------------ *)
+
+(* what an enabled check does, as a function of the observations *)
+Lemma recv_check_cases s c w :
+  mb_waiter (view s c) = Some w -> w_phase w = Checking ->
+  snd (step s (RecvCheck c)) =
+    match mb_poison (view s c) with
+    | Some g => ORecvErr (EConflict g)
+    | None =>
+      match collect (w_froms w) (mb_payloads (view s c)) with
+      | Some res => ORecvOk res
+      | None =>
+        match fatal s with
+        | Some k => ORecvErr (EFatal k)
+        | None => if w_cancel w then ORecvErr ECancelled else OParked
+        end
+      end
+    end.
+Proof.
+  intros Hw Hp. cbn [step]. unfold recv_check.
+  destruct (find_box s c) eqn:Eb.
+  - find_to_view. subst m. rewrite Hw, Hp.
+    destruct (mb_poison (view s c)); [reflexivity|].
+    destruct (collect (w_froms w) (mb_payloads (view s c))); [reflexivity|].
+    destruct (fatal s); [reflexivity|]. destruct (w_cancel w); reflexivity.
+  - find_to_view. rewrite Eb in Hw. discriminate.
+Qed.
+
+Lemma recv_check_enabled s c o :
+  snd (step s (RecvCheck c)) = o -> o <> ODisabled ->
+  exists w, mb_waiter (view s c) = Some w /\ w_phase w = Checking.
+Proof.
+  cbn [step]. unfold recv_check. destruct (find_box s c) eqn:Eb; cbn [snd]; [|congruence].
+  find_to_view. subst m. destruct (mb_waiter (view s c)) eqn:Ew; cbn [snd]; [|congruence].
+  destruct (w_phase w) eqn:Ep; cbn [snd]; try congruence. intros _ _. exists w. split; [reflexivity|exact Ep].
+Qed.
+
+(* recv_exact *)
+Lemma recv_exact q tr s c s' res :
+  reach q tr s -> step s (RecvCheck c) = (s', ORecvOk res) ->
+  exists froms, entered_r tr c = Some froms /\ map fst res = dedup froms /\ NoDup (map fst res) /\
+    (forall f, In f froms -> exists p, In (f, p) res) /\
+    (forall f p, In (f, p) res ->
+       pending_r tr c f = Some p /\ In f q /\ exists d, In (Deposit f c p, ODep d) tr /\ filed d = true).
+Proof.
+  intros Hr Hs. assert (Ho : snd (step s (RecvCheck c)) = ORecvOk res) by (rewrite Hs; reflexivity).
+  destruct (recv_check_enabled s c _ Ho) as (w & Hw & Hp); [discriminate|].
+  rewrite (recv_check_cases s c w Hw Hp) in Ho.
+  destruct (mb_poison (view s c)); [discriminate|].
+  destruct (collect (w_froms w) (mb_payloads (view s c))) eqn:Ecol.
+  2: { destruct (fatal s); [discriminate|]. destruct (w_cancel w); discriminate. }
+  injection Ho as ->.
+  pose proof (reach_wf q tr s Hr c) as Hwf. unfold wf in Hwf. rewrite Hw in Hwf. cbn [option_map] in Hwf.
+  destruct (entered_r tr c) as [froms|] eqn:Een; cbn [option_map] in Hwf; [|discriminate].
+  injection Hwf as Hwf. exists froms. split; [reflexivity|].
+  pose proof (collect_keys _ _ _ Ecol) as Hk. rewrite Hwf in Hk.
+  split; [exact Hk|]. split; [rewrite Hk; apply dedup_NoDup|]. split.
+  - intros f Hf. assert (Hin : In f (map fst res)) by (rewrite Hk; apply dedup_In; exact Hf).
+    apply in_map_iff in Hin as ([f' p] & Hfp & Hin). cbn [fst] in Hfp. subst f'. exists p. exact Hin.
+  - intros f p Hin. destruct (collect_In _ _ _ f p Ecol Hin) as [Hl _].
+    assert (Hpe : pending_r tr c f = Some p) by (rewrite <- (reach_pl q tr s Hr); exact Hl).
+    split; [exact Hpe|]. destruct (pending_sound tr c f p Hpe) as (d & Hd & Hf).
+    split; [apply mem_In; eapply filed_member; eauto|]. exists d. split; assumption.
+Qed.
+
+(* dup_absorbed *)
+Lemma dup_absorbed q tr s f c p :
+  reach q tr s -> reader s = RRunning -> pending_r tr c f = Some p ->
+  step s (Deposit f c p) = (s, ODep DAbsorbed).
+Proof.
+  intros Hr Hrd Hp. rewrite <- (reach_pl q tr s Hr) in Hp. unfold pl in Hp.
+  assert (Hm : mem f (quorum s) = true).
+  { rewrite (reach_quorum q tr s Hr). destruct (pending_sound tr c f p) as (d & Hd & Hf).
+    - rewrite <- (reach_pl q tr s Hr). exact Hp.
+    - eapply filed_member; eauto. }
+  cbn [step]. unfold deposit. rewrite Hrd, Hm. cbn [negb]. fold (view s c). rewrite Hp, beqb_refl. reflexivity.
+Qed.
+
+(* conflict_poisons *)
+Lemma conflict_detected q tr s f c p p' :
+  reach q tr s -> reader s = RRunning -> pending_r tr c f = Some p -> p <> p' ->
+  snd (step s (Deposit f c p')) = ODep DPoisoned /\
+  blame_r ((Deposit f c p', snd (step s (Deposit f c p'))) :: tr) c = Some f.
+Proof.
+  intros Hr Hrd Hp Hne.
+  assert (Ho : snd (step s (Deposit f c p')) = ODep DPoisoned).
+  { pose proof Hp as Hp0. rewrite <- (reach_pl q tr s Hr) in Hp. unfold pl in Hp.
+    assert (Hm : mem f (quorum s) = true).
+    { rewrite (reach_quorum q tr s Hr). destruct (pending_sound tr c f p Hp0) as (d & Hd & Hf).
+      eapply filed_member; eauto. }
+    cbn [step]. unfold deposit. rewrite Hrd, Hm. cbn [negb]. fold (view s c). rewrite Hp.
+    apply beqb_neq in Hne. rewrite Hne. reflexivity. }
+  split; [exact Ho|]. rewrite Ho. cbn [blame_r blame_step filed andb]. rewrite beqb_refl, Hp.
+  apply beqb_neq in Hne. rewrite Hne. reflexivity.
+Qed.
+
+Lemma poisoned_check_fails q tr s c g s' o :
+  reach q tr s -> blame_r tr c = Some g -> step s (RecvCheck c) = (s', o) ->
+  o = ODisabled \/ o = ORecvErr (EConflict g).
+Proof.
+  intros Hr Hb Hs. assert (Ho : snd (step s (RecvCheck c)) = o) by (rewrite Hs; reflexivity).
+  assert (Hd : o = ODisabled \/ o <> ODisabled) by (destruct o; (left; reflexivity) || (right; discriminate)).
+  destruct Hd as [Hd|Hd]; [left; exact Hd|right].
+  destruct (recv_check_enabled s c o Ho Hd) as (w & Hw & Hp).
+  rewrite (recv_check_cases s c w Hw Hp) in Ho.
+  pose proof (reach_poison q tr s Hr c) as Hpo. unfold poi in Hpo. rewrite Hb in Hpo. rewrite Hpo in Ho.
+  symmetry. exact Ho.
+Qed.
+
+Lemma blame_only_after_conflict q tr s c g s' :
+  reach q tr s -> step s (RecvCheck c) = (s', ORecvErr (EConflict g)) -> blame_r tr c = Some g.
+Proof.
+  intros Hr Hs. assert (Ho : snd (step s (RecvCheck c)) = ORecvErr (EConflict g)) by (rewrite Hs; reflexivity).
+  destruct (recv_check_enabled s c _ Ho) as (w & Hw & Hp); [discriminate|].
+  rewrite (recv_check_cases s c w Hw Hp) in Ho.
+  rewrite <- (reach_poison q tr s Hr c). unfold poi.
+  destruct (mb_poison (view s c)); [injection Ho as ->; reflexivity|].
+  destruct (collect (w_froms w) (mb_payloads (view s c))); [discriminate|].
+  destruct (fatal s); [discriminate|]. destruct (w_cancel w); discriminate.
+Qed.
+
+(* cancel_loses_nothing *)
+Lemma nothing_lost s e :
+  (forall f c p, e <> Deposit f c p) -> (forall res, snd (step s e) <> ORecvOk res) ->
+  forall c f, pl (fst (step s e)) c f = pl s c f.
+Proof.
+  intros Hd Hok c f. rewrite step_pl. unfold pend_step. destruct e; try reflexivity.
+  - exfalso. eapply Hd. reflexivity.
+  - destruct (snd (step s (RecvCheck c0))) eqn:Eo; try reflexivity. exfalso. eapply Hok. reflexivity.
+Qed.
+
+Lemma later_receive_gets_them q tr s c froms :
+  reach q tr s -> fatal s = None -> entered_r tr c = None -> blame_r tr c = None ->
+  (forall f, In f froms -> pending_r tr c f <> None) ->
+  snd (step s (RecvEnter c froms)) = OEntered /\
+  exists res, snd (step (fst (step s (RecvEnter c froms))) (RecvCheck c)) = ORecvOk res /\
+    map fst res = dedup froms /\ forall f p, In (f, p) res -> pending_r tr c f = Some p.
+Proof.
+  intros Hr Hf He Hb Hall.
+  pose proof (reach_wf q tr s Hr c) as Hwf. unfold wf in Hwf. rewrite He in Hwf. cbn [option_map] in Hwf.
+  assert (Hw : mb_waiter (view s c) = None) by (destruct (mb_waiter (view s c)); [discriminate|reflexivity]).
+  set (s1 := match reader s with RNotStarted => set_reader s RRunning | _ => s end).
+  assert (Hv : forall c', view s1 c' = view s c') by (intros c'; unfold s1; destruct (reader s); reflexivity).
+  set (w := {| w_froms := dedup froms; w_tokens := 0%N; w_cancel := false; w_phase := Checking |}).
+  assert (Hstep : step s (RecvEnter c froms) = (set_box s1 c (set_waiter (view s1 c) (Some w)), OEntered)).
+  { cbn [step]. unfold recv_enter. rewrite Hf. fold s1. fold (view s1 c). rewrite Hv, Hw. reflexivity. }
+  rewrite Hstep. cbn [fst snd]. split; [reflexivity|].
+  set (s2 := set_box s1 c (set_waiter (view s1 c) (Some w))).
+  assert (Hv2 : view s2 c = set_waiter (view s c) (Some w)).
+  { unfold s2. rewrite view_set_box, beqb_refl, Hv. reflexivity. }
+  rewrite (recv_check_cases s2 c w); [|rewrite Hv2; reflexivity|reflexivity].
+  rewrite Hv2. cbn [set_waiter mb_poison mb_payloads].
+  pose proof (reach_poison q tr s Hr c) as Hpo. unfold poi in Hpo. rewrite Hb in Hpo. rewrite Hpo.
+  destruct (collect (w_froms w) (mb_payloads (view s c))) eqn:Ecol.
+  - exists l. split; [reflexivity|]. split; [apply (collect_keys _ _ _ Ecol)|].
+    intros f p Hin. destruct (collect_In _ _ _ f p Ecol Hin) as [Hl _].
+    rewrite <- (reach_pl q tr s Hr). exact Hl.
+  - exfalso. assert (Hne : collect (w_froms w) (mb_payloads (view s c)) <> None).
+    { apply collect_Some_iff. intros f Hin. unfold w in Hin. cbn [w_froms] in Hin. apply (proj1 (dedup_In _ _)) in Hin.
+      pose proof (Hall f Hin) as Hp. rewrite <- (reach_pl q tr s Hr) in Hp. exact Hp. }
+    congruence.
+Qed.
+
+(* buffer_accounting *)
+Lemma buffer_accounting q tr s :
+  reach q tr s -> buffered s = total (boxes s) /\ (0 <= buffered s)%Z.
+Proof.
+  intros Hr. destruct (reach_sinv q tr s Hr) as [_ _ H]. split; [exact H|]. rewrite H. apply total_nonneg.
+Qed.
+
+Lemma overflow_only_at_bound s f c p :
+  snd (step s (Deposit f c p)) = ODep DOverflow -> (maxReceiveBufferSize <= buffered s)%Z.
+Proof.
+  cbn [step]. unfold deposit. destruct (reader s); cbn [snd]; try discriminate.
+  destruct (negb (mem f (quorum s))); cbn [snd]; [discriminate|].
+  destruct (nlookup f (mb_payloads (box_for s c))); [destruct (beqb b p); discriminate|].
+  destruct (buffer_full (buffered s)) eqn:E; cbn [snd]; [|discriminate]. intros _. apply buffer_full_bound. exact E.
+Qed.
+
+Lemma fatal_step s e :
+  fatal (fst (step s e)) =
+  match fatal s with
+  | Some k => Some k
+  | None =>
+    match e, snd (step s e) with
+    | _, ODep DOverflow => Some FBufferFull
+    | _, ODep DUndecodable => Some FReader
+    | ReaderError, ONone => Some FReader
+    | Shutdown, _ => Some FClosed
+    | _, _ => None
+    end
+  end.
+Proof.
+  destruct (fatal s) eqn:Ef.
+  - (* already latched: nothing changes it *)
+    destruct e; step_unfold; cbn [fst snd]; rewrite ?Ef;
+      repeat (destr1; cbn [fst snd set_box set_buffered set_reader fail_locked del_box fatal]; rewrite ?Ef; try reflexivity);
+      try (destruct (reader s); cbn [fatal]; exact Ef);
+      try (cbn [fail_locked fatal]; rewrite Ef; reflexivity).
+  - destruct e; step_unfold; cbn [fst snd]; rewrite ?Ef;
+      repeat (destr1; cbn [fst snd set_box set_buffered set_reader fail_locked del_box fatal]; rewrite ?Ef; try reflexivity);
+      try (destruct (reader s); cbn [fatal]; exact Ef);
+      try (cbn [fail_locked fatal]; rewrite Ef; reflexivity).
+Qed.
+
+Lemma bufferfull_only_by_overflow q tr s :
+  reach q tr s -> fatal s = Some FBufferFull -> exists e, In (e, ODep DOverflow) tr.
+Proof.
+  induction 1 as [|tr s e H IH]; [discriminate|]. rewrite fatal_step.
+  destruct (fatal s) eqn:Ef.
+  - intros Hk. destruct (IH Hk) as [e' He']. exists e'. right. exact He'.
+  - intros Hk. exists e. left.
+    destruct e; destruct (snd (step s _)) eqn:Eo; try discriminate; try destruct d; try discriminate; reflexivity.
+Qed.
+
+(* below the bound nothing overflows: the count of undelivered messages is [buffered] *)
+Lemma no_fatal_below_bound q tr s :
+  reach q tr s ->
+  (forall e, In (e, ODep DOverflow) tr -> False) -> fatal s <> Some FBufferFull.
+Proof.
+  intros Hr Hno Hf. destruct (bufferfull_only_by_overflow q tr s Hr Hf) as [e He]. eapply Hno. exact He.
+Qed.
+
+(* no_lost_wakeup *)
+Definition ready (s : state) (c : cid) (w : waiter) : Prop :=
+  mb_poison (view s c) <> None \/ collect (w_froms w) (mb_payloads (view s c)) <> None \/
+  fatal s <> None \/ w_cancel w = true.
+
+Lemma no_lost_wakeup q tr s c w :
+  reach q tr s -> mb_waiter (view s c) = Some w -> w_phase w = Parked -> ready s c w ->
+  exists e, (e = WakeToken c \/ e = WakeAlt c) /\ snd (step s e) = OWoken /\
+    exists o, snd (step (fst (step s e)) (RecvCheck c)) = o /\
+      ((exists res, o = ORecvOk res) \/ (exists err, o = ORecvErr err)).
+Proof.
+  intros Hr Hw Hp Hrd.
+  destruct (reach_winv q tr s Hr c w Hw) as [_ Hwk].
+  assert (Hfb : find_box s c = Some (view s c)).
+  { unfold view, box_for in *. destruct (find_box s c); [reflexivity|]. discriminate. }
+  (* which wake-up is enabled *)
+  assert (Hen : (0 < w_tokens w)%N \/ w_cancel w = true \/ fatal s <> None).
+  { destruct Hrd as [H1|[H1|[H1|H1]]]; [apply Hwk; [exact Hp|left; exact H1]|apply Hwk; [exact Hp|right; exact H1]|right; right; exact H1|right; left; exact H1]. }
+  assert (Hchk : forall s2 w2, view s2 c = set_waiter (view s c) (Some w2) -> w_phase w2 = Checking ->
+           w_froms w2 = w_froms w -> w_cancel w2 = w_cancel w -> fatal s2 = fatal s ->
+           exists o, snd (step s2 (RecvCheck c)) = o /\
+             ((exists res, o = ORecvOk res) \/ (exists err, o = ORecvErr err))).
+  { intros s2 w2 Hv2 Hp2 Hfr Hca Hfa.
+    rewrite (recv_check_cases s2 c w2); [|rewrite Hv2; reflexivity|exact Hp2].
+    rewrite Hv2. cbn [set_waiter mb_poison mb_payloads]. rewrite Hfr, Hca, Hfa.
+    destruct (mb_poison (view s c)) eqn:Epo; [eexists; split; [reflexivity|right; eexists; reflexivity]|].
+    destruct (collect (w_froms w) (mb_payloads (view s c))) eqn:Ecol; [eexists; split; [reflexivity|left; eexists; reflexivity]|].
+    destruct (fatal s) eqn:Ef; [eexists; split; [reflexivity|right; eexists; reflexivity]|].
+    destruct (w_cancel w) eqn:Eca; [eexists; split; [reflexivity|right; eexists; reflexivity]|].
+    exfalso. destruct Hrd as [H1|[H1|[H1|H1]]]; congruence. }
+  destruct (0 <? w_tokens w)%N eqn:Etok.
+  - exists (WakeToken c). split; [left; reflexivity|].
+    cbn [step]. unfold wake_token. rewrite Hfb, Hw, Hp, Etok. cbn [fst snd]. split; [reflexivity|].
+    eapply Hchk; [rewrite view_set_box, beqb_refl; reflexivity|reflexivity|reflexivity|reflexivity|reflexivity].
+  - assert (Halt : w_cancel w || is_some (fatal s) = true).
+    { destruct Hen as [H1|[H1|H1]]; [lia|rewrite H1; reflexivity|].
+      destruct (fatal s); [apply orb_true_r|congruence]. }
+    exists (WakeAlt c). split; [right; reflexivity|].
+    cbn [step]. unfold wake_alt. rewrite Hfb, Hw, Hp, Halt. cbn [fst snd]. split; [reflexivity|].
+    eapply Hchk; [rewrite view_set_box, beqb_refl; reflexivity|reflexivity|reflexivity|reflexivity|reflexivity].
+Qed.
+
+(* ---- reach = every finite event sequence run from the initial state -------------------------------- *)
+
+Definition history (s : state) (evs : list event) : hist := rev (combine evs (snd (run s evs))).
+
+Lemma run_cons s e r :
+  run s (e :: r) = (fst (run (fst (step s e)) r), snd (step s e) :: snd (run (fst (step s e)) r)).
+Proof.
+  cbn [run]. destruct (step s e) as [s1 o]. cbn [fst snd]. destruct (run s1 r) as [s2 os]. reflexivity.
+Qed.
+
+Lemma reach_run_from q tr s evs :
+  reach q tr s -> reach q (history s evs ++ tr) (fst (run s evs)).
+Proof.
+  revert tr s. induction evs as [|e r IH]; intros tr s H; [exact H|].
+  unfold history. rewrite run_cons. cbn [fst snd combine rev]. rewrite <- app_assoc. cbn [app].
+  apply IH. apply reach_step. exact H.
+Qed.
+
+Lemma reach_run q evs : reach q (history (init q) evs) (fst (run (init q) evs)).
+Proof. rewrite <- (app_nil_r (history (init q) evs)). apply reach_run_from. constructor. Qed.
+
+Lemma run_app s e1 e2 :
+  run s (e1 ++ e2) = (fst (run (fst (run s e1)) e2), snd (run s e1) ++ snd (run (fst (run s e1)) e2)).
+Proof.
+  revert s. induction e1 as [|e r IH]; intros s.
+  - cbn [app run fst snd]. destruct (run s e2); reflexivity.
+  - cbn [app]. rewrite !run_cons. rewrite IH. cbn [fst snd app]. reflexivity.
+Qed.
+
+Lemma run_length s evs : length (snd (run s evs)) = length evs.
+Proof. revert s. induction evs as [|e r IH]; intros s; [reflexivity|]. rewrite run_cons. cbn [snd length]. rewrite IH. reflexivity. Qed.
+
+Lemma combine_app' {A B} (a1 a2 : list A) (b1 b2 : list B) :
+  length a1 = length b1 -> combine (a1 ++ a2) (b1 ++ b2) = combine a1 b1 ++ combine a2 b2.
+Proof.
+  revert b1. induction a1 as [|x a1 IH]; intros [|y b1] H; cbn in *; try discriminate; [reflexivity|].
+  rewrite IH by lia. reflexivity.
+Qed.
+
+Lemma reach_is_run q tr s :
+  reach q tr s -> exists evs, tr = history (init q) evs /\ s = fst (run (init q) evs).
+Proof.
+  induction 1 as [|tr s e H (evs & -> & ->)].
+  - exists []. split; reflexivity.
+  - exists (evs ++ [e]). unfold history. rewrite run_app. cbn [fst snd].
+    rewrite run_cons. cbn [run fst snd].
+    rewrite combine_app' by (symmetry; apply run_length).
+    cbn [combine]. rewrite rev_app_distr. cbn [rev app]. split; reflexivity.
+Qed.
+
+(* ---- namespaces -------------------------------------------------------------------------------------- *)
+
+Lemma ns_extend_eq prefix ns : ns_extend prefix ns = prefix ++ ns ++ namespaceSeparator.
+Proof. reflexivity. Qed.
+Lemma root_prefix_eq : root_prefix = [].
+Proof. reflexivity. Qed.
+Lemma recv_cid_eq prefix c : recv_cid prefix c = prefix ++ c.
+Proof. reflexivity. Qed.
+Lemma send_cid_eq prefix c : send_cid prefix c = prefix ++ c.
+Proof. reflexivity. Qed.
+Lemma separator_single : exists b, namespaceSeparator = [b].
+Proof. eexists. reflexivity. Qed.
+
+Lemma send_recv_agree nss c : send_full nss c = recv_full nss c.
+Proof. reflexivity. Qed.
+
+Lemma ns_prefix_from nss p :
+  fold_left ns_extend nss p = p ++ concat (map (fun n => n ++ namespaceSeparator) nss).
+Proof.
+  revert p. induction nss as [|n r IH]; intros p; cbn [fold_left map concat].
+  - rewrite app_nil_r. reflexivity.
+  - rewrite IH, ns_extend_eq. rewrite <- !app_assoc. reflexivity.
+Qed.
+
+Lemma recv_full_eq nss c :
+  recv_full nss c = concat (map (fun n => n ++ namespaceSeparator) nss) ++ c.
+Proof. unfold recv_full, ns_prefix. rewrite recv_cid_eq, ns_prefix_from, root_prefix_eq. reflexivity. Qed.
+
+(* a string without the separator byte is determined by where the first separator is *)
+Lemma split_at_sep (b : N) (x y rx ry : bytes) :
+  ~ In b x -> ~ In b y -> x ++ b :: rx = y ++ b :: ry -> x = y /\ rx = ry.
+Proof.
+  revert y. induction x as [|a x IH]; intros [|a' y] Hx Hy H; cbn [app] in H.
+  - injection H as ->. split; reflexivity.
+  - injection H as <- _. exfalso. apply Hy. left. reflexivity.
+  - injection H as -> _. exfalso. apply Hx. left. reflexivity.
+  - injection H as -> H. destruct (IH y) as [-> ->]; auto.
+    + intros Hin. apply Hx. right. exact Hin.
+    + intros Hin. apply Hy. right. exact Hin.
+Qed.
+
+Lemma namespace_injective_gen (b : N) :
+  namespaceSeparator = [b] ->
+  forall nss nss' c c',
+  (forall n, In n nss -> ~ In b n) -> (forall n, In n nss' -> ~ In b n) -> ~ In b c -> ~ In b c' ->
+  recv_full nss c = recv_full nss' c' -> nss = nss' /\ c = c'.
+Proof.
+  intros Hsep nss. induction nss as [|n r IH]; intros [|n' r'] c c' Hn Hn' Hc Hc'; rewrite !recv_full_eq, Hsep;
+    cbn [map concat app]; intros H.
+  - split; [reflexivity|exact H].
+  - exfalso. apply Hc. rewrite H. rewrite <- !app_assoc. cbn [app]. apply in_or_app. right. left. reflexivity.
+  - exfalso. apply Hc'. rewrite <- H. rewrite <- !app_assoc. cbn [app]. apply in_or_app. right. left. reflexivity.
+  - rewrite <- !app_assoc in H. cbn [app] in H.
+    destruct (split_at_sep b n n' _ _ (Hn n (or_introl eq_refl)) (Hn' n' (or_introl eq_refl)) H) as [-> Hrest].
+    destruct (IH r' c c') as [-> ->]; auto.
+    + intros m Hm. apply Hn. right. exact Hm.
+    + intros m Hm. apply Hn'. right. exact Hm.
+    + rewrite !recv_full_eq, Hsep. exact Hrest.
+Qed.
+
+Lemma namespace_injective nss nss' c c' :
+  (forall n, In n nss -> ~ In 47%N n) -> (forall n, In n nss' -> ~ In 47%N n) -> ~ In 47%N c -> ~ In 47%N c' ->
+  recv_full nss c = recv_full nss' c' -> nss = nss' /\ c = c'.
+Proof. apply namespace_injective_gen. reflexivity. Qed.
+
+(* without the hypothesis the statement is false (DESIGN §6, observation C11) *)
+Lemma namespace_collision_with_separator_inside :
+  recv_full [[97]; [98]]%N [99]%N = recv_full [[97]]%N [98; 47; 99]%N.
+Proof. reflexivity. Qed.
+
+(* ---- the statements of props/C11.v that combine several of the lemmas above --------------------- *)
+
+Lemma reach_is_every_run q :
+  (forall evs, reach q (history (init q) evs) (fst (run (init q) evs))) /\
+  (forall tr s, reach q tr s -> exists evs, tr = history (init q) evs /\ s = fst (run (init q) evs)).
+Proof. split; [apply reach_run|apply reach_is_run]. Qed.
+
+Lemma conflict_poisons q tr s c :
+  reach q tr s ->
+  (forall f p p', reader s = RRunning -> pending_r tr c f = Some p -> p <> p' ->
+     snd (step s (Deposit f c p')) = ODep DPoisoned /\
+     blame_r ((Deposit f c p', snd (step s (Deposit f c p'))) :: tr) c = Some f) /\
+  (forall g s' o, blame_r tr c = Some g -> step s (RecvCheck c) = (s', o) ->
+     o = ODisabled \/ o = ORecvErr (EConflict g)) /\
+  (forall g s', step s (RecvCheck c) = (s', ORecvErr (EConflict g)) -> blame_r tr c = Some g) /\
+  (forall g, blame_r tr c = Some g ->
+     exists newer older p p' d, tr = newer ++ (Deposit g c p', ODep d) :: older /\ filed d = true /\
+       pending_r older c g = Some p /\ p <> p') /\
+  (forall eo, blame_r tr c <> None -> blame_r (eo :: tr) c <> None).
+Proof.
+  intros H. split; [|split; [|split; [|split]]].
+  - intros f p p'. apply (conflict_detected q tr s f c p p' H).
+  - intros g s' o. apply (poisoned_check_fails q tr s c g s' o H).
+  - intros g s'. apply (blame_only_after_conflict q tr s c g s' H).
+  - apply blame_r_spec.
+  - intros eo. apply blame_r_persist.
+Qed.
+
+Lemma cancel_loses_nothing q tr s :
+  reach q tr s ->
+  (forall e, (forall f c p, e <> Deposit f c p) -> (forall res, snd (step s e) <> ORecvOk res) ->
+     forall c f, pl (fst (step s e)) c f = pl s c f) /\
+  (forall c f, pl s c f = pending_r tr c f) /\
+  (forall c froms, fatal s = None -> entered_r tr c = None -> blame_r tr c = None ->
+     (forall f, In f froms -> pending_r tr c f <> None) ->
+     snd (step s (RecvEnter c froms)) = OEntered /\
+     exists res, snd (step (fst (step s (RecvEnter c froms))) (RecvCheck c)) = ORecvOk res /\
+       map fst res = dedup froms /\ forall f p, In (f, p) res -> pending_r tr c f = Some p).
+Proof.
+  intros H. split; [|split].
+  - apply nothing_lost.
+  - apply (reach_pl q tr s H).
+  - intros c froms. apply (later_receive_gets_them q tr s c froms H).
+Qed.
+
+Lemma buffer_accounting_all q tr s :
+  reach q tr s ->
+  (buffered s = total (boxes s) /\ (0 <= buffered s)%Z) /\
+  (forall f c p, snd (step s (Deposit f c p)) = ODep DOverflow -> (maxReceiveBufferSize <= buffered s)%Z) /\
+  (fatal s = Some FBufferFull -> exists e, In (e, ODep DOverflow) tr).
+Proof.
+  intros H. split; [|split].
+  - apply (buffer_accounting q tr s H).
+  - apply overflow_only_at_bound.
+  - apply (bufferfull_only_by_overflow q tr s H).
+Qed.
+
+Lemma namespace_needs_hypothesis :
+  exists nss nss' c c', recv_full nss c = recv_full nss' c' /\ nss <> nss'.
+Proof.
+  exists [[97]; [98]]%N, [[97]]%N, [99]%N, [98; 47; 99]%N. split; [reflexivity|discriminate].
+Qed.
